@@ -157,6 +157,9 @@ def drive(ns, adj, app, pieces, service="end", sock=None, sym_headers=True):
             if ch.connected and ch.writable():
                 ch.handle_write()
     except Exception as e:  # noqa: an escaping exception is an observation (C06)
+        if isinstance(e, (RecursionError, MemoryError)):
+            from wsx.core import Unsupported
+            raise Unsupported("engine resource error: %r" % e)
         exc = "%s: %s" % (type(e).__name__, e if not any(isinstance(a, SymSeq) for a in e.args) else "<sym>")
     return dict(wire=sock.wire(), calls=app.calls, closing=closing(ch), closed=sock.closed,
                 pending=ch.request is not None, queued=len(ch.requests), sock=sock, ch=ch, exc=exc)
